@@ -92,7 +92,7 @@ impl TraitHandler for DerefStructHandler {
                 type Target = #target_token_stream;
 
                 #[inline]
-                fn deref(&self) -> &Self::Target {
+                fn deref(&self) -> &<Self as ::core::ops::Deref>::Target {
                     #deref_token_stream
                 }
             }
